@@ -16,6 +16,7 @@ import Cte.Model.Schedules
 import Cte.Model.Solar
 import Cte.Model.Damage
 import Cte.Model.Bdl
+import Cte.Model.Convert
 import Cte.Gen.Schema
 open Cte
 
@@ -292,6 +293,59 @@ def opBdlBlocks (req : J) : J :=
   | .ok bs => J.obj [("ok", J.arr (bs.map jBlock))]
   | .error e => J.obj [("err", J.str e)]
 
+namespace SkelIO
+open Cte.Conv
+def str (j : J) (k : String) : String := match j.get? k with | some (J.str s) => s | _ => ""
+def ostr (j : J) (k : String) : Option String := match j.get? k with | some (J.str s) => some s | _ => none
+def bool (j : J) (k : String) : Bool := match j.get? k with | some (J.bool b) => b | _ => false
+def nat (j : J) (k : String) : Nat := match j.get? k with | some (J.num false n 0) => n | _ => 0
+def arr (j : J) (k : String) : List J := match j.get? k with | some (J.arr l) => l | _ => []
+def strs (j : J) (k : String) : List String := (arr j k).filterMap (fun x => match x with | J.str s => some s | _ => none)
+def nats (j : J) (k : String) : List Nat := (arr j k).filterMap (fun x => match x with | J.num false n 0 => some n | _ => none)
+
+def bdlOf (j : J) : Bdl :=
+  { spaces := (arr j "spaces").map (fun s => { name := str s "name", spaceconds := str s "spaceconds", systemconds := str s "systemconds", nverts := nat s "nverts" }),
+    walls := (arr j "walls").map (fun w => { name := str w "name", space := str w "space", cons := str w "cons", nextto := ostr w "nextto",
+                                             location := ostr w "location", hasPolygon := bool w "has_polygon" }),
+    windows := (arr j "windows").map (fun w => { name := str w "name", wall := str w "wall", cons := str w "cons" }),
+    wallcons := (arr j "wallcons").map (fun c => { key := str c "key", name := str c "name", materials := strs c "materials" }),
+    wincons := (arr j "wincons").map (fun c => { key := str c "key", name := str c "name", glass := str c "glass", frame := str c "frame" }),
+    materials := (arr j "materials").map (fun m => str m "key"),
+    glasses := strs j "glasses", frames := strs j "frames",
+    days := (arr j "days").map (fun d => str d "name"),
+    weeks := (arr j "weeks").map (fun w => { name := str w "name", days := strs w "days" }),
+    years := (arr j "years").map (fun y => { name := str y "name", weeks := strs y "weeks", months := nats y "months", days := nats y "days" }),
+    loads := (arr j "loads").map (fun l => { key := str l "key", name := str l "name", numericOk := bool l "numeric_ok", people := ostr l "people",
+                                             equip := ostr l "equip", light := ostr l "light" }),
+    thermostats := (arr j "thermostats").map (fun t => { key := str t "key", name := str t "name", conditioned := bool t "conditioned",
+                                                         cool := ostr t "cool", heat := ostr t "heat" }) }
+
+def jo (o : Option String) : J := match o with | some s => J.str s | none => J.null
+
+def mdlJ (m : Mdl) : J :=
+  J.obj [("walls", J.arr (m.walls.map (fun w => J.obj [("id", J.str w.id), ("cons", J.str w.cons), ("space", J.str w.space), ("next_to", jo w.nextTo)]))),
+         ("windows", J.arr (m.windows.map (fun w => J.obj [("id", J.str w.id), ("cons", J.str w.cons), ("wall", J.str w.wall)]))),
+         ("spaces", J.arr (m.spaces.map (fun s => J.obj [("id", J.str s.id), ("loads", jo s.loads), ("thermostat", jo s.thermostat)]))),
+         ("wallcons", J.arr (m.wallcons.map (fun c => J.obj [("id", J.str c.id), ("layers", jStrs c.layers)]))),
+         ("wincons", J.arr (m.wincons.map (fun c => J.obj [("id", J.str c.id), ("glass", J.str c.glass), ("frame", J.str c.frame)]))),
+         ("materials", jStrs m.materials), ("glasses", jStrs m.glasses), ("frames", jStrs m.frames),
+         ("years", J.arr (m.years.map (fun y => J.obj [("id", J.str y.id), ("refs", jStrs y.refs)]))),
+         ("weeks", J.arr (m.weeks.map (fun y => J.obj [("id", J.str y.id), ("refs", jStrs y.refs)]))),
+         ("days", jStrs m.days),
+         ("loads", J.arr (m.loads.map (fun l => J.obj [("id", J.str l.id), ("people", J.str l.people), ("equip", J.str l.equip), ("light", J.str l.light)]))),
+         ("thermostats", J.arr (m.thermostats.map (fun t => J.obj [("id", J.str t.id), ("tmax", jo t.tmax), ("tmin", jo t.tmin)]))),
+         ("closed", J.bool (closed m))]
+end SkelIO
+
+/-- op `skelconvert`: the referential skeleton of `Model::try_from` on the parsed project's names -/
+def opSkelConvert (req : J) : J :=
+  match (req.get? "impl").bind (fun i => i.get? "bdl") with
+  | none => J.obj [("skip", J.bool true)]
+  | some b =>
+    match Conv.convert (SkelIO.bdlOf b) with
+    | .ok m => J.obj [("ok", SkelIO.mdlJ m)]
+    | .error e => J.obj [("err", J.str e)]
+
 /-- op `occupancy`: yearly occupied time and mean internal load -/
 def opOccupancy (m : Model) : J :=
   J.obj [("hours_in_use", J.ofNat (hoursInUse m)), ("average_load", jr (averageLoad (Fns.approx 0) m)),
@@ -351,6 +405,7 @@ def handle (line : String) : String :=
       | some (J.str "enddates") => opEndDates req
       | some (J.str "edgevert") => opEdgeVert req
       | some (J.str "bdlblocks") => opBdlBlocks req
+      | some (J.str "skelconvert") => opSkelConvert req
       | some (J.str "indicators") => withModel req (opIndicators req)
       | some (J.str "classify") => opClassify req
       | some (J.str "bvh") => opBvh req
